@@ -331,7 +331,7 @@ Lemma cb_step_raise cfg orig closed cb e : callback_ok cb = true -> cb_step cfg 
   exists dec n c, orig = Some dec /\ dec n = DecRaise c /\ e = PyExc c.
 Proof.
   destruct cb; cbn [cb_step callback_ok]; intros H; try discriminate.
-  - destruct (cb_starttag cfg closed name attrs false) as [e1 c1]. destruct (cb_endtag c1 name true). cbn. discriminate.
+  - destruct (cb_starttag cfg closed name attrs false) as [e1 c1]. destruct (cb_endtag c1 name false). cbn. discriminate.
   - destruct (charref_data orig name) as [d|e'] eqn:E; [discriminate|]. intros X; inversion X; subst.
     destruct (charref_raises_only_codec orig name e H E) as (dec & n & c & A & _ & B & C & _). exists dec, n, c. auto.
   - destruct (starts_with cdata_prefix (map upper_ascii s)); discriminate.
